@@ -90,7 +90,10 @@ def run_case(ctx, g, rng):
     api, S = ctx.api, probe.S
     if g * SMALL_CHUNK < len(_world(ctx.tier)):
         small_world_case(ctx, g)
-    ps, us = rng.sample(PA, k=len(PA)), rng.sample(UA, k=len(UA))
+    d = rng.choice([":", ":", ":", "/", "::", "_"])
+    pa = PA + (["obo:go", "x:"] if d != ":" else ["a.b", "a/b"])
+    ps, us = rng.sample(pa, k=len(pa)), rng.sample(UA, k=len(UA))
+    ps = [p for p in ps if d not in p]
     n = rng.randint(1, 3)
     recs = []
     for i in range(n):
@@ -110,7 +113,9 @@ def run_case(ctx, g, rng):
         keys = rng.sample(allp + ["zz"], k=min(k, len(allp) + 1))
     vals = rng.sample(allu + ["y1/", "y2/", "x1/"], k=len(keys))
     m = dict(zip(keys, vals))
-    c = api.Converter([gen.mk_record(api, r) for r in recs])
+    # the converter may have a past (registered record by record, grown through merges) and any delimiter
+    c, how = gen.build(api, recs, d, rng)
+    S.counters[f"wl:build:{how}"] += 1
     f = curies.remap_uri_prefixes if mode == "remap_uri_prefixes" else curies.rewire
     o = call(f, c, dict(m))
 
@@ -140,7 +145,7 @@ def run_case(ctx, g, rng):
         for r in recs:
             for u in spec.all_u(r):
                 call(res.compress, u + "1")
-            call(res.expand, r.prefix + ":1")
+            call(res.expand, r.prefix + res.delimiter + "1")
     if g % 499 == 0:
         probe.sample({"operation": mode, "records": [spec.rec_dict(r) for r in recs], "mapping": m,
                       "result": [spec.rec_dict(r) for r in spec.snapshot(o[1])] if o[0] == "ret" else outcome})
